@@ -15,7 +15,10 @@ RULE = (
     "(orig / check / ml) plus a stack of entry snapshots: after every step each binding the model "
     "calls 'orig' must BE the function object captured before fickling was imported (identity), "
     "and each binding the model calls protected must refuse a flagged probe (foreign global "
-    "calling a harmless sink) with UnsafeFileError and an empty sink log; __exit__ must not "
+    "calling a harmless sink) with UnsafeFileError and an empty sink log, and additionally refuse the "
+    "pickle that only *its* protection objects to (check: a SUSPICIOUS call of the allow-listed "
+    "collections.OrderedDict; ml: a bare reference to datetime.date, which the check rates "
+    "LIKELY_SAFE), so that one protection standing in for the other is seen; __exit__ must not "
     "swallow exceptions. Non-trivial = history nests a context inside another protection, leaves "
     "by exception, or arms two families; distinct = distinct histories."
 )
@@ -27,6 +30,11 @@ ASSUMPTIONS = [
 ]
 
 FLAGGED = b"cverif_sink\nsink\n(S'c12'\ntR."
+# pickles that tell the two protections apart: the static check flags a call of OrderedDict
+# (SUSPICIOUS) which the built-in ML allowlist admits; the ML environment refuses datetime.date,
+# which the static check rates LIKELY_SAFE when it is only referenced.  Only refusals are asserted.
+ONLY_CHECK_FLAGS = b"ccollections\nOrderedDict\n)R."
+ONLY_ML_REFUSES = b"cdatetime\ndate\n."
 BINDINGS = ("pickle.load", "pickle.loads", "_pickle.load", "_pickle.loads")
 
 
@@ -62,7 +70,7 @@ class Model:
         self.b["pickle.load"] = self.stack.pop()
 
 
-def probe(name):
+def probe(name, data=FLAGGED):
     """('executed'|'refused'|'error', detail)"""
     import verif_sink
     from fickling.exception import UnsafeFileError
@@ -71,10 +79,10 @@ def probe(name):
     verif_sink.reset()
     try:
         if name.endswith(".load"):
-            fn(io.BytesIO(FLAGGED))
+            fn(io.BytesIO(data))
         else:
-            fn(FLAGGED)
-        out = ("executed" if verif_sink.LOG else "returned-without-running", None)
+            fn(data)
+        out = ("executed" if verif_sink.LOG or data is not FLAGGED else "returned-without-running", None)
     except UnsafeFileError:
         out = ("refused-but-ran" if verif_sink.LOG else "refused", None)
     except Exception as e:  # noqa: BLE001
@@ -137,6 +145,17 @@ def step(model, ctxs, st):
                     f"{n} should be protected ({state}) but a flagged pickle through it was {got} "
                     f"{detail or ''}"
                 )
+            # "precisely the protection that was in force": the binding must be the protection
+            # the model names, not merely some protection
+            other = ONLY_CHECK_FLAGS if state == "check" else ONLY_ML_REFUSES
+            got, detail = probe(n, other)
+            if got != "refused":
+                what = (
+                    "a pickle the safety check flags (call of collections.OrderedDict, SUSPICIOUS)"
+                    if state == "check"
+                    else "a global outside the ML allowlist (datetime.date)"
+                )
+                return f"{n} should be under the {state} protection but {what} through it was {got} {detail or ''}"
     return None
 
 
